@@ -233,9 +233,10 @@ class State:
         self.ncell = 0
         self.tape = []  # cids ahead of the cursor
         self.eof = False  # True: exactly len(tape) bytes remain
-        # a measured look-ahead: position token `ahead[0]` sits in front of tape[ahead[1]]; while
-        # `run` (a byte-class mask) is set, an unknown number (>= 0) of bytes of that class lies
-        # between tape[ahead[1]-1] and the token (unfolded on demand, see Machine.unfold_run)
+        # a measured look-ahead (tok, idx, back): position token `tok` sits in front of
+        # tape[idx+back]; while `run` (a byte-class mask) is set, an unknown number (>= 0) of bytes of
+        # that class lies between tape[idx-1] and tape[idx] (unfolded on demand from either end, see
+        # Machine.unfold_run); back = number of cells between the run and the token (0 once run is None)
         self.ahead = None
         self.run = None
         # position tokens behind (or at) the cursor, oldest first; gaps[i] = (lo, exact) distance
@@ -345,9 +346,9 @@ class State:
             order = list(self.chain) + ["$CUR", "E"]
             segs = list(self.gaps) + [self.cur_gap, (len(self.tape), self.eof)]
         else:
-            tok, idx = self.ahead
+            tok, idx, back = self.ahead
             order = list(self.chain) + ["$CUR", tok, "E"]
-            segs = list(self.gaps) + [self.cur_gap, (idx, self.run is None), (len(self.tape) - idx, self.eof)]
+            segs = list(self.gaps) + [self.cur_gap, (idx + back, self.run is None), (len(self.tape) - idx - back, self.eof)]
         for s_ in w:
             if s_ not in order:
                 return None
@@ -785,24 +786,44 @@ class Machine:
 
         raise Fork([("more@%d" % k, more), ("eof@%d" % k, end)], "input length")
 
-    def unfold_run(self, st):
-        """The measured run of look-ahead bytes is either empty or starts with one more byte of its
-        class (run = eps | byte . run): the two refinements of a pending run."""
+    def unfold_run(self, st, from_back=False):
+        """The measured run of look-ahead bytes is either empty or has one more byte of its class at
+        its front (run = eps | byte . run) or at its back (run = eps | run . byte): the two
+        refinements of a pending run."""
         mask = st.run
 
+        has = st.flags.get("run_has", 0)  # a byte of this class is known to occur in the run
+
         def empty(s):
+            if has:
+                return False
+            tok, idx, back = s.ahead
             s.run = None
+            s.ahead = (tok, idx + back, 0)
 
-        def more(s):
-            tok, idx = s.ahead
-            c = s.new_cell(mask)
-            s.tape.insert(idx, c)
-            s.ahead = (tok, idx + 1)
+        def more_with(cmask, found):
+            def more(s):
+                if not cmask:
+                    return False
+                tok, idx, back = s.ahead
+                c = s.new_cell(cmask)
+                s.tape.insert(idx, c)
+                if from_back:
+                    s.ahead = (tok, idx, back + 1)
+                else:
+                    s.ahead = (tok, idx + 1, back)
+                if found:
+                    s.flags.pop("run_has", None)
+            return more
 
-        raise Fork([("run-ends", empty), ("run-continues", more)], "length of the measured look-ahead run")
+        if has:
+            choices = [("run-continues", more_with(mask & ~has, False)), ("run-continues-with-the-known-byte", more_with(mask & has, True))]
+        else:
+            choices = [("run-ends", empty), ("run-continues", more_with(mask, False))]
+        raise Fork(choices, "length of the measured look-ahead run")
 
     def ahead_rel(self, st, loc):
-        """j when loc is exactly j bytes after the measured-run token (j >= 0), else None."""
+        """j when loc is exactly j bytes after (j >= 0) or before (j < 0) the measured-run token."""
         if st.ahead is None or loc[0] != "B":
             return None
         tok = st.ahead[0]
@@ -813,8 +834,8 @@ class Machine:
             r = st.rel_pos(rest, loc[2])
             if r is None or r[2] != 0 or r[0] is None or r[0] != r[1]:
                 return None
-            return r[0] if r[0] >= 0 else None
-        return loc[2] if loc[2] >= 0 else None
+            return r[0]
+        return loc[2]
 
     def need_after(self, st, total):
         """Ensure len(tape) >= total by materialising cells at the far end (behind any pending run)."""
@@ -850,10 +871,16 @@ class Machine:
             j = self.ahead_rel(st, loc)
             if j is None:
                 raise Unanalysable("read at inexact buffer position")
-            idx = st.ahead[1]
-            ok = self.need_after(st, idx + j + n)
+            tok, idx, back = st.ahead
+            if j < 0:
+                # behind the token: the last bytes of the measured run
+                if st.run is not None and -j > back:
+                    self.unfold_run(st, from_back=True)
+                if idx + back + j < 0:
+                    raise Unanalysable("read before the measured look-ahead")
+            ok = self.need_after(st, idx + back + j + n)
             self.oblige(st, "deref-in-bounds", ok, "read %d byte(s) after the measured look-ahead run with fewer proven to remain" % (j + n))
-            cells = [st.tape[idx + j + i] for i in range(n)]
+            cells = [st.tape[idx + back + j + i] for i in range(n)]
         else:
             for i in range(n):
                 cells.append(self.buf_cell(st, r + i))
@@ -1327,14 +1354,31 @@ class Machine:
                 et = t["elem"]
                 off, minlen, from_end = pe[1], pe[2], pe[3]
                 if from_end:
-                    raise Unanalysable("from_end constant index")
-                if loc[0] == "U":
+                    if loc[0] != "U":
+                        raise Unanalysable("from_end constant index into a sized place")
+                    # element len - off (the pattern's length test precedes it in MIR)
+                    loc = self.elem_loc(st, loc[1], sym_add(loc[2], mk_int(off, self.p.ptr_bytes * 8), -1))
+                elif loc[0] == "U":
                     loc = self.elem_loc(st, loc[1], mk_int(off, 64))
                 else:
                     loc = self.loc_push(loc, off)
                 tid = et
             elif k == "opaque":
                 tid = pe[1]
+            elif k == "subslice" and loc[0] == "U":
+                frm, to, from_end = pe[1], pe[2], pe[3]
+                pb = self.p.ptr_bytes * 8
+                base = self.elem_loc(st, loc[1], mk_int(frm, pb)) if frm else loc[1]
+                if from_end:
+                    nlen = sym_add(loc[2], mk_int(frm + to, pb), -1)
+                else:
+                    nlen = mk_int(to - frm, pb)
+                summ = loc[3]
+                if summ is not None and summ[0] in ("reg", "const"):
+                    summ = ("reg", summ[1] if summ[0] == "reg" else FULL, FULL, None)
+                elif summ is not None and summ[0] != "ahead":
+                    summ = None
+                loc = ("U", base, nlen, summ)
             else:
                 raise Unanalysable("place projection %s" % k)
         return loc, tid
